@@ -248,7 +248,16 @@ def check_text(acc: Acc, case: dict) -> None:
 		acc.violation('rejection/summary', f'{problem} for {text!r}', case)
 
 
+WITNESS_WALRUS = 'x = ( a := b if c else d )\n'
+
+
 def classify(v: dict) -> str | None:
+	"""Open finding 'walrus-binds-tighter-than-conditional': the shipped grammar says ternary := (expr_move "if" expr_move "else")? expr_move
+	with expr_move := (comp_or ":=")? comp_or, so `( a := b if c else d )` is read `( (a := b) if c else d )`; CPython reads the whole
+	conditional as the value. Matched only on the committed witness sentence and on that difference (the sentence generator never puts
+	a walrus directly in front of a conditional)."""
+	if v['kind'] == 'tree/differs' and v.get('case', {}).get('text') == WITNESS_WALRUS and "('walrus', 'a', ('name', 'b'))" in v['detail']:
+		return 'walrus-binds-tighter-than-conditional'
 	return None
 
 
@@ -269,6 +278,7 @@ def shard(ctx: Ctx, acc: Acc) -> None:
 	if ctx.shard == 0:
 		for t in FIXED + FIXED_COMPACT:
 			check_text(acc, {'text': t, 'features': ['sum:+', 'stmt:if']})
+		check_text(acc, {'text': WITNESS_WALRUS, 'features': ['walrus', 'ternary']})
 	n = N_SENTENCES[ctx.tier]
 	for i in range(n):
 		if not ctx.mine(i):
